@@ -264,6 +264,18 @@ def info_section(ctx):
         ctx.count(); ctx.klass("instance info: %s axis, italic angles %r" % (axis[1], angles)); ctx.nontriv(("iinfo", i, ctx.scale))
         try:
             ds, fonts = dsgen.make_designspace(rng, masters, lib, axes=[axis], locations=[{axis[0]: l} for l in locs], instances=False)
+            if i % 4 == 1:
+                # a sparse LAYER source of the last master, listed BEFORE that master (a layer has no info of its own: the info
+                # masters are the two fonts at their own locations, whatever the order of the sources)
+                from fontTools.designspaceLib import SourceDescriptor
+                layer = fonts[1].newLayer("Sparse")
+                gl = layer.newGlyph("a"); gl.width = 550; fonts[1]["a"].drawPoints(gl.getPointPen())
+                sd = SourceDescriptor()
+                sd.font, sd.layerName, sd.name = fonts[1], "Sparse", "master.Sparse"
+                sd.location = {axis[0]: float(locs[0] + (locs[1] - locs[0]) * 0.25)}
+                sd.familyName, sd.styleName = "Fam", "Sparse"
+                ds.sources.insert(1, sd)
+                ctx.klass("instance info: a sparse layer source listed before its parent master")
             inst = Instantiator.from_designspace(ds, round_geometry=rnd)
             got = {}
             for t in (0, 1, Fr(1, 2)):
